@@ -5,12 +5,15 @@ import (
 	"go/ast"
 	"go/token"
 	"go/types"
+	"regexp"
 	"strings"
 
 	"golang.org/x/tools/go/packages"
 
+	"verif/checker/internal/eval"
 	"verif/checker/internal/flow"
 	"verif/checker/internal/load"
+	"verif/checker/internal/ref"
 )
 
 const (
@@ -40,6 +43,12 @@ func init() {
 			"(R19.3 = R20.4) only destinations and backups are mutated; (R19.4) the bundle separator \";\\n\" is passed exactly under the JavaScript media type test; (R19.5 = R20.5) a file minified onto itself leaves no backup behind because the backup's creation and removal names agree.",
 		Run: runC19,
 	})
+	mutant(&Mutant{Name: "c19-watch-map-shares-loop-variable", Property: "C19", File: "cmd/minify/main.go",
+		Old: "\t\t\t\ttask := task // one variable per task, the map keeps its address\n", New: "",
+		Rule: "R19.9", Construct: "&task of the range loop"})
+	mutant(&Mutant{Name: "c19-separator-only-for-one-js-type", Property: "C19", File: "cmd/minify/main.go",
+		Old: "\t\tif err == nil && jsMimetypeRegexp.MatchString(fileMimetype) {", New: "\t\tif err == nil && fileMimetype == extMap[\"js\"] {",
+		Rule: "R19.4", Construct: "bundle separator"})
 	mutant(&Mutant{Name: "c19-separator-from-start", Property: "C19", File: "cmd/minify/io.go",
 		Old: "m := copy(p, r.sep[len(r.sep)-r.sepLeft:])", New: "m := copy(p, r.sep[:r.sepLeft])",
 		Rule: "R19.8", Construct: "copy of the pending"})
@@ -88,7 +97,7 @@ func init() {
 		Old: "\t\t\tfails += <-chanFails\n", New: "\t\t\t<-chanFails\n",
 		Rule: "R19.2", Construct: "run/worker counters"})
 	mutant(&Mutant{Name: "c19-css-bundle-separator", Property: "C19", File: "cmd/minify/main.go",
-		Old: "\t\tif err == nil && fileMimetype == extMap[\"js\"] {", New: "\t\tif err == nil {",
+		Old: "\t\tif err == nil && jsMimetypeRegexp.MatchString(fileMimetype) {", New: "\t\tif err == nil {",
 		Rule: "R19.4", Construct: "bundle separator"})
 }
 
@@ -878,6 +887,7 @@ func runC19(c *Ctx) {
 	c.r196(x)
 	c.r206(x, "R19.7")
 	c.r198(x)
+	c.r199()
 }
 
 // R19.8: the bundle reader delivers files in order with the whole separator between them.
@@ -1203,7 +1213,7 @@ func (c *Ctx) r192(x *cliCtx) {
 
 func (c *Ctx) r194(x *cliCtx) {
 	const rule = "R19.4"
-	c.R.Rule(rule, "the separator passed to openInputFiles is assigned \";\\n\" only on the true outcome of fileMimetype == extMap[\"js\"] and is nil otherwise")
+	c.R.Rule(rule, "the separator passed to openInputFiles is \";\\n\" exactly for the bundles the JavaScript minifier will receive: the condition guarding the assignment is evaluated for a universe of media types (the JavaScript types of the HTML standard plus the other types the CLI registers) and must hold for precisely those that match the pattern registered together with the js.Minifier in run() — two recognisers of `is JavaScript` in one program must agree (`--type text/javascript` otherwise bundles `x=1` and `y=2` into `x=1y=2`, and a `;` between style sheets would change them)")
 	g, info := x.g, x.info
 	construct := "main.minify/bundle separator"
 	var sepName string
@@ -1214,6 +1224,123 @@ func (c *Ctx) r194(x *cliCtx) {
 	if sepName == "" {
 		c.R.Unres(rule, construct, c.pos(x.fd), "call of openInputFiles not found")
 		return
+	}
+	// pattern text of a *regexp.Regexp expression: regexp.MustCompile("…") or a variable initialised so
+	var patternOf func(e ast.Expr) (string, bool)
+	patternOf = func(e ast.Expr) (string, bool) {
+		e = ast.Unparen(e)
+		if call, ok := e.(*ast.CallExpr); ok && (calleeName(info, call) == "regexp.MustCompile" || calleeName(info, call) == "regexp.MustCompilePOSIX") && len(call.Args) == 1 {
+			if v, err := c.Ev.Expr(x.pk, call.Args[0]); err == nil {
+				if sv, isS := v.(string); isS {
+					return sv, true
+				}
+			}
+			return "", false
+		}
+		if id, ok := e.(*ast.Ident); ok {
+			if v, isVar := info.Uses[id].(*types.Var); isVar && v.Pkg() == x.pk.Types && v.Parent() == x.pk.Types.Scope() {
+				if init := load.VarInit(x.pk, id.Name); init != nil && !c.assignedAnywhere(v) {
+					return patternOf(init)
+				}
+			}
+		}
+		return "", false
+	}
+	// the pattern registered with the JavaScript minifier
+	var jsPattern string
+	found := 0
+	for _, fd := range load.FuncDecls(x.pk) {
+		for _, call := range findCalls(info, fd.Body, true, load.Mod+".(M).AddRegexp") {
+			if len(call.Args) != 2 {
+				continue
+			}
+			if namedTypeName(deref(info.TypeOf(call.Args[1]))) != load.Mod+"/js.Minifier" {
+				continue
+			}
+			if p, ok := patternOf(call.Args[0]); ok {
+				jsPattern = p
+				found++
+			}
+		}
+	}
+	if found != 1 {
+		c.R.Unres(rule, construct, c.pos(x.fd), fmt.Sprintf("%d registrations of a js.Minifier with a constant pattern found (want 1)", found))
+		return
+	}
+	jsRe, err := regexp.Compile(jsPattern)
+	if err != nil {
+		c.R.Unres(rule, construct, c.pos(x.fd), "registered pattern does not compile: "+err.Error())
+		return
+	}
+	universe := sortedKeys(ref.JSMimeTypes)
+	universe = append(universe, "module", "text/css", "text/html", "image/svg+xml", "application/json", "application/ld+json", "text/xml", "application/xml", "application/rss+xml", "text/plain", "text/asp", "application/x-httpd-php", "text/x-go-template", "")
+	// evaluate a guard for mimetype value T
+	var evalGuard func(e ast.Expr, T string) (bool, bool)
+	evalStr := func(e ast.Expr, T string) (string, bool) {
+		e = ast.Unparen(e)
+		if id, ok := e.(*ast.Ident); ok {
+			if v, isVar := info.Uses[id].(*types.Var); isVar && v.Pkg() == x.pk.Types && v.Parent() != x.pk.Types.Scope() {
+				if b, isB := v.Type().Underlying().(*types.Basic); isB && b.Kind() == types.String {
+					return T, true // the media type variable of the task
+				}
+			}
+		}
+		if v, err := c.Ev.Expr(x.pk, e); err == nil {
+			if sv, isS := v.(string); isS {
+				return sv, true
+			}
+		}
+		// constant key of a package-level map literal (its initial contents)
+		if ix, ok := e.(*ast.IndexExpr); ok {
+			if id, isId := ast.Unparen(ix.X).(*ast.Ident); isId {
+				if mv, _, err := c.Ev.PackageVar(x.pk, id.Name); err == nil {
+					if m, isM := mv.(*eval.Map); isM {
+						if kv, err := c.Ev.Expr(x.pk, ix.Index); err == nil {
+							for _, en := range m.Entries {
+								if en.Key == kv {
+									if sv, isS := en.Value.(string); isS {
+										return sv, true
+									}
+								}
+							}
+						}
+					}
+				}
+			}
+		}
+		return "", false
+	}
+	evalGuard = func(e ast.Expr, T string) (bool, bool) {
+		e = ast.Unparen(e)
+		switch b := e.(type) {
+		case *ast.BinaryExpr:
+			switch b.Op {
+			case token.EQL, token.NEQ:
+				if isNilExpr(b.X) || isNilExpr(b.Y) {
+					return b.Op == token.EQL, true // err == nil: the normal course
+				}
+				l, ok1 := evalStr(b.X, T)
+				r, ok2 := evalStr(b.Y, T)
+				if !ok1 || !ok2 {
+					return false, false
+				}
+				return (l == r) == (b.Op == token.EQL), true
+			}
+		case *ast.CallExpr:
+			if sel, ok := b.Fun.(*ast.SelectorExpr); ok && (sel.Sel.Name == "MatchString" || sel.Sel.Name == "Match") && len(b.Args) == 1 {
+				if p, okp := patternOf(sel.X); okp {
+					re, err := regexp.Compile(p)
+					arg := b.Args[0]
+					if conv, isConv := ast.Unparen(arg).(*ast.CallExpr); isConv && len(conv.Args) == 1 {
+						arg = conv.Args[0] // []byte(x)
+					}
+					if s, oks := evalStr(arg, T); oks && err == nil {
+						return re.MatchString(s), true
+					}
+				}
+			}
+		}
+		return false, false
 	}
 	var bad []string
 	k := 0
@@ -1228,23 +1355,55 @@ func (c *Ctx) r194(x *cliCtx) {
 		if err != nil || !isB || string(b) != ";\n" {
 			bad = append(bad, "separator value is not \";\\n\"")
 		}
-		guarded := false
+		// conjunction of the dominating outcomes
+		var facts []flow.Fact
 		for _, f := range g.DomFacts(n) {
-			if f.Value && f.Test.Kind == flow.KCond {
-				s := nospace(str(f.Test.Expr))
-				if s == `fileMimetype==extMap["js"]` || s == `extMap["js"]==fileMimetype` {
-					guarded = true
-				}
+			if f.Test.Kind == flow.KCond && f.Test.Expr.Pos() > 0 {
+				facts = append(facts, f)
 			}
 		}
-		if !guarded {
-			bad = append(bad, "the JavaScript separator is used for bundles of another type (e.g. `;` between CSS files changes the stylesheet)")
+		// only the tests that mention the media type decide; the others (err == nil, number of sources) are the normal course
+		var wrongFor []string
+		undecided := ""
+		for _, T := range universe {
+			holds := true
+			mentioned := false
+			for _, f := range facts {
+				if !flow.Contains(f.Test.Expr, func(q ast.Node) bool {
+					id, ok := q.(*ast.Ident)
+					return ok && strings.Contains(strings.ToLower(id.Name), "mimetype")
+				}) {
+					continue
+				}
+				mentioned = true
+				val, okv := evalGuard(f.Test.Expr, T)
+				if !okv {
+					undecided = str(f.Test.Expr)
+					continue
+				}
+				if val != f.Value {
+					holds = false
+				}
+			}
+			if !mentioned {
+				holds = true
+			}
+			if holds != jsRe.MatchString(T) {
+				wrongFor = append(wrongFor, fmt.Sprintf("%q (separator %v, JavaScript minifier %v)", T, holds, jsRe.MatchString(T)))
+			}
+		}
+		if undecided != "" {
+			c.R.Unres(rule, construct, c.pos(n.Stmt), "guard "+undecided+" could not be evaluated")
+			return
+		}
+		if len(wrongFor) > 0 {
+			bad = append(bad, "the separator guard and the pattern registered with the JavaScript minifier disagree for "+strings.Join(wrongFor, ", "))
 		}
 	}
 	if k == 0 {
 		bad = append(bad, "no separator is ever set: concatenated scripts can merge across file boundaries")
 	}
-	c.R.Check(len(bad) == 0, rule, construct, c.pos(x.fd), "\";\\n\" exactly under the JavaScript media type", strings.Join(bad, "; "))
+	c.R.Check(len(bad) == 0, rule, construct, c.pos(x.fd), fmt.Sprintf("\";\\n\" exactly for the %d media types of the universe that select the JavaScript minifier", len(universe)), strings.Join(bad, "; "))
 }
 
 // boundToFlag: the variable's address is registered with argp AddOpt under the given long name.
@@ -1270,4 +1429,89 @@ func (c *Ctx) boundToFlag(pk *packages.Package, fd *ast.FuncDecl, v *types.Var, 
 		}
 	}
 	return found
+}
+
+// R19.9: the address of a per-loop variable does not outlive its iteration.
+func (c *Ctx) r199() {
+	const rule = "R19.9"
+	c.R.Rule(rule, "the module is compiled with the loop-variable semantics of its go.mod language version; below go1.22 a `for`/`range` variable is ONE variable for the whole loop. In cmd/minify and the library packages every `&v` of such a variable that is stored (map/slice element, field, channel send, appended, captured by a go/defer closure) instead of being consumed by the call it is an argument of is reported: all stored pointers alias the last element — the watch mode's file→task map then re-minifies the last task whatever file changed")
+	n, stored := 0, 0
+	rels := append([]string{"cmd/minify"}, libPkgs...)
+	for _, rel := range rels {
+		pk := c.P.Pkg(rel)
+		if pk == nil {
+			continue
+		}
+		info := pk.TypesInfo
+		gv := pk.Types.GoVersion()
+		perIteration := false
+		if gv != "" {
+			var maj, min int
+			fmt.Sscanf(strings.TrimPrefix(gv, "go"), "%d.%d", &maj, &min)
+			perIteration = maj > 1 || maj == 1 && min >= 22
+		}
+		for _, fd := range load.FuncDecls(pk) {
+			if fd.Body == nil {
+				continue
+			}
+			loopVars := map[types.Object]string{}
+			ast.Inspect(fd.Body, func(x ast.Node) bool {
+				switch s := x.(type) {
+				case *ast.RangeStmt:
+					if s.Tok == token.DEFINE {
+						for _, e := range []ast.Expr{s.Key, s.Value} {
+							if id, ok := e.(*ast.Ident); ok && info.Defs[id] != nil {
+								loopVars[info.Defs[id]] = "range"
+							}
+						}
+					}
+				case *ast.ForStmt:
+					if as, ok := s.Init.(*ast.AssignStmt); ok && as.Tok == token.DEFINE {
+						for _, l := range as.Lhs {
+							if id, ok := l.(*ast.Ident); ok && info.Defs[id] != nil {
+								loopVars[info.Defs[id]] = "for"
+							}
+						}
+					}
+				}
+				return true
+			})
+			if len(loopVars) == 0 {
+				continue
+			}
+			ast.Inspect(fd.Body, func(x ast.Node) bool {
+				u, ok := x.(*ast.UnaryExpr)
+				if !ok || u.Op != token.AND {
+					return true
+				}
+				id, ok := ast.Unparen(u.X).(*ast.Ident)
+				if !ok || loopVars[info.Uses[id]] == "" {
+					return true
+				}
+				n++
+				// consumed by a call: direct argument of a call expression (not of append / go / defer)
+				par := c.P.Parent(u)
+				consumed := false
+				if call, isCall := par.(*ast.CallExpr); isCall {
+					consumed = true
+					if fid, isId := call.Fun.(*ast.Ident); isId && fid.Name == "append" {
+						consumed = false
+					}
+					switch c.P.Parent(call).(type) {
+					case *ast.GoStmt, *ast.DeferStmt:
+						consumed = false
+					}
+				}
+				if consumed {
+					return true
+				}
+				stored++
+				construct := fmt.Sprintf("%s.%s/&%s of the %s loop", pk.Name, load.FuncName(fd), id.Name, loopVars[info.Uses[id]])
+				c.R.Check(perIteration, rule, construct, c.pos(u), "language version "+gv+" gives every iteration its own variable", "language version "+gv+" (go.mod) has one variable per loop: the stored pointer &"+id.Name+" is the same in every iteration and ends up pointing at the last element")
+				return true
+			})
+		}
+	}
+	c.R.Note("R19.9: %d address-of expressions on loop variables, %d stored", n, stored)
+	c.R.Floor(rule, "packages examined", len(rels), 8)
 }
